@@ -179,7 +179,7 @@ def gen_cases(chk, gens):
     """sample the exported designspaces: every class of the coverage mask, then a seeded sample"""
     rng = chk.rng
     quick = chk.tier == "quick"
-    budget = {1: 260 if quick else 2500, 2: 420 if quick else 5000, 3: 120 if quick else 1500}
+    budget = {1: 150 if quick else 2500, 2: 250 if quick else 5000, 3: 80 if quick else 1500}
     by_axes = {}
     for js, mask in gens:
         d = json.loads(js)
@@ -318,8 +318,9 @@ def drive_corpus(task):
 # (M)
 # --------------------------------------------------------------------------------------------------
 MC_JOBS = {
-    "quick": [("MC_Build", "MC_Build"), ("MC_Build", "MC_Build2"), ("MC_Build", "MC_Build3")],
-    "thorough": [("MC_Build", "MC_Build_thorough"), ("MC_Build", "MC_Build2_thorough"), ("MC_Build", "MC_Build3_thorough")],
+    "quick": [("MC_Build", "MC_Build"), ("MC_Build", "MC_Build2"), ("MC_Build", "MC_Build3"), ("MC_Build", "MC_Build_gen")],
+    "thorough": [("MC_Build", "MC_Build_thorough"), ("MC_Build", "MC_Build2_thorough"), ("MC_Build", "MC_Build2b_thorough"),
+                 ("MC_Build", "MC_Build3_thorough"), ("MC_Build", "MC_Build_gen"), ("MC_Build", "MC_Build_gen_thorough")],
 }
 WANT_MASK = 1 | 2 | 4 | 8 | 16 | 32 | 64
 
@@ -327,12 +328,18 @@ WANT_MASK = 1 | 2 | 4 | 8 | 16 | 32 | 64
 def run_mc(chk):
     from concurrent.futures import ThreadPoolExecutor
 
+    cache = os.environ.get("VERIF_C10_GEN_CACHE")   # development aid only: replay without re-running (M)
+    if cache and os.path.exists(cache):
+        chk.notes["MC_Build"] = "SKIPPED (development run with cached designspaces)"
+        with open(cache) as f:
+            return [tuple(x) for x in json.load(f)]
+
     jobs = MC_JOBS[chk.tier]
 
     def one(job):
         k, (mod, cfg) = job
         time.sleep(0.5 * k)
-        return chk.tlc(mod, cfg=cfg, label=cfg, timeout=3000, workers=5)
+        return chk.tlc(mod, cfg=cfg, label=cfg, timeout=3000, workers=4)
 
     with ThreadPoolExecutor(len(jobs)) as ex:
         res = list(ex.map(one, enumerate(jobs)))
